@@ -15,7 +15,7 @@ def scenarios(tier):
     q = tier == "quick"
     menu = [("API", "add", "id-a", "rA", False), ("API", "add", "id-b", "cIn", False), ("API", "add", None, "rSmall", False),
             ("API", "add", "id-a", "cBig", True), ("API", "add", "c", "Foo", False), ("API", "add", "f", "rFine", False),
-            ("API", "upd", "f", "cFine", False),
+            ("API", "upd", "f", "cFine", False), ("API", "add", 7, "cIn", False), ("API", "del", 7, None, False),
             ("API", "upd", "id-a", "rBig", False), ("API", "upd", "id-a", "rSmall", False), ("API", "upd", "zz", "rA", False),
             ("API", "upd", "id-a", "Foo", False), ("API", "upd", "id-b", "cBig", False), ("API", "upd", "id-a", "cTouch", False),
             ("API", "upd", "id-a", "rBig", True),
